@@ -43,14 +43,14 @@ BOUNDS = {
     "q-mut1": "24 contexts x one grammatical element of 22 names x every truncation and every dropped end tag",
     "q-pkg": "contexts body, tc x (10 parts x 8 breaks + 15 ZIP shapes x 3 entry points), full battery",
     "q-extreme": "contexts tc, r x one element of {p, t, tbl, text} x nesting depth 2000 / 8000 siblings / 8000-byte text and attribute / 1000 attributes on every element",
-    "t-place2": "24 contexts x <= 2 generated elements over the whole alphabet (100 names), <= 1 oddity (attribute classes none/word/2^31), 4 text classes",
+    "t-place2": "24 contexts x <= 2 generated elements over the whole alphabet (100 names), <= 1 oddity (attribute classes none/2^31), 4 text classes",
     "t-place3": "10 main contexts x exactly 3 generated elements (depth <= 3) over 22 names, <= 1 ungrammatical placement",
     "t-odd2": "10 main contexts x exactly 2 generated elements over 22 names, <= 2 oddities (attribute classes none/2^31), text classes plain/pi/space",
     "t-mut0": "24 context paths x every mutation kind x every position x with/without standard siblings x memory/file",
     "t-mut1": "24 contexts x one grammatical element of 22 names x every mutation kind x every position",
     "t-mut2": "10 main contexts x two grammatical elements of 22 names x every truncation and every dropped end tag",
     "t-pkg": "5 contexts x (10 parts x 8 breaks + 15 ZIP shapes x 3 entry points) x with/without standard siblings, full battery",
-    "t-extreme": "5 contexts x one element of {p, t, tbl, text} x nesting depth 30000 / 100000 siblings, bytes of text, bytes of attribute, 12500 attributes on every element",
+    "t-extreme": "contexts tc, r, bsdt x one element of {p, t, tbl, text} x nesting depth 30000 / 40000 siblings, bytes of text, bytes of attribute, 5000 attributes on every element",
 }
 
 
@@ -155,9 +155,9 @@ def pipeline(ctx, replay_case=None):
     ctx.exhaustive = True
     # seeded random larger products: more elements, several oddities, mutation x package deviation
     sim = ctx.tlc_gen("XmlIn_MC.tla", gencfg(ctx, "gen_sim.cfg", ["q-sim" if q else "t-sim"]), "sim", mode="sim",
-                      num=12 if q else 150, depth=45, limit=500 if q else 6000, timeout=900)
+                      num=12 if q else 150, depth=45, limit=500 if q else 5000, timeout=900)
     execute(ctx, sim, "sim", pend, shards=16)
-    bounds["sim"] = ("%d seeded random inputs: <= %d generated elements (depth <= %d), <= 3 oddities, mutation x package deviation x entry point"
+    bounds["sim"] = ("%d seeded random inputs: <= %d generated elements (depth <= %d), <= 3 oddities, 10 mutation kinds x package deviation x entry point"
                      % (len(sim), 9 if q else 14, 4 if q else 6))
     judge(ctx, pend)
     ctx.extra_cov["bounds"] = bounds
